@@ -168,6 +168,13 @@ Proof.
   destruct (nth_error (store st) j); reflexivity.
 Qed.
 
+Lemma sc_add_lazy st m r : same_core st (add_lazy st m r).
+Proof.
+  unfold add_lazy. repeat split; cbn; try apply length_upd_nth.
+  intro j. unfold file_owner. cbn. rewrite nth_upd_nth. destruct (Nat.eqb m j); [|reflexivity].
+  destruct (nth_error (store st) j); reflexivity.
+Qed.
+
 Lemma sc_with_native st c r : same_core st (with_native st c r).
 Proof. repeat split. Qed.
 
@@ -293,11 +300,24 @@ Variable nat_reg : natives.
 Variable rq : rstate -> path -> zs -> rstate * res.
 Hypothesis Hrq : forall st d r, Inv st -> good st (fst (rq st d r)).
 
+Lemma run_lazies_good reqs : forall st f, Inv st -> good st (fst (run_lazies rq st f reqs)).
+Proof.
+  induction reqs as [|r reqs IH]; intros st f HI; cbn [run_lazies].
+  - apply good_refl. exact HI.
+  - pose proof (Hrq st (pdir (parse f)) r HI) as Hg. destruct (rq st (pdir (parse f)) r) as [st1 x]. cbn [fst] in Hg.
+    destruct Hg as [HI1 E1].
+    set (st2 := log_event st1 f r (outcome_of st1 x)).
+    assert (G2 : good st st2).
+    { split; [eapply same_core_inv; [apply sc_log_event|exact HI1]|]. eapply ext_trans; [exact E1|apply same_core_ext, sc_log_event]. }
+    assert (Hcont : good st (fst (run_lazies rq st2 f reqs))) by (eapply good_trans; [exact G2|apply IH; exact (proj1 G2)]).
+    destruct x; cbn [fst]; try exact Hcont. exact G2.
+Qed.
+
 Lemma run_body_good prog : forall st m file, Inv st -> good st (fst (run_body rq st m file prog)).
 Proof.
   induction prog as [|i prog IH]; intros st m file HI; cbn [run_body].
   - apply good_refl. exact HI.
-  - destruct i as [|k v|r catch|t].
+  - destruct i as [|k v|r catch|t|r|t].
     + eapply good_trans; [apply good_sc; [apply sc_bump|exact HI]|]. apply IH. eapply same_core_inv; [apply sc_bump|exact HI].
     + eapply good_trans; [apply good_sc; [apply sc_set_exp|exact HI]|]. apply IH. eapply same_core_inv; [apply sc_set_exp|exact HI].
     + pose proof (Hrq st (pdir (parse file)) r HI) as Hg. destruct (rq st (pdir (parse file)) r) as [st1 x]. cbn [fst] in Hg.
@@ -308,6 +328,20 @@ Proof.
       assert (Hcont : good st (fst (run_body rq st2 m file prog))) by (eapply good_trans; [exact G2|apply IH; exact (proj1 G2)]).
       destruct x; try exact Hcont; try (destruct catch; [exact Hcont|exact G2]). exact G2.
     + apply good_refl. exact HI.
+    + eapply good_trans; [apply good_sc; [apply sc_add_lazy|exact HI]|]. apply IH. eapply same_core_inv; [apply sc_add_lazy|exact HI].
+    + pose proof (Hrq st (pdir (parse file)) t HI) as Hg. destruct (rq st (pdir (parse file)) t) as [st1 x]. cbn [fst] in Hg.
+      destruct Hg as [HI1 E1].
+      set (st2 := log_event st1 file t (outcome_of st1 x)).
+      assert (G2 : good st st2).
+      { split; [eapply same_core_inv; [apply sc_log_event|exact HI1]|]. eapply ext_trans; [exact E1|apply same_core_ext, sc_log_event]. }
+      assert (Hcont : good st (fst (run_body rq st2 m file prog))) by (eapply good_trans; [exact G2|apply IH; exact (proj1 G2)]).
+      destruct x as [m'| | | |]; try exact Hcont; [|exact G2].
+      destruct (owner_file st2 m') as [f'|]; [|exact Hcont].
+      remember (run_lazies rq st2 f' (lazies_of st2 m')) as rl eqn:ERL.
+      assert (G3 : good st2 (fst rl)) by (rewrite ERL; apply run_lazies_good; exact (proj1 G2)).
+      destruct rl as [st3 oof]. cbn [fst] in G3.
+      assert (G03 : good st st3) by exact (good_trans _ _ _ G2 G3).
+      destruct oof; [exact G03|]. eapply good_trans; [exact G03|apply IH; exact (proj1 G03)].
 Qed.
 
 Definition good_res (st : rstate) (r : res) : Prop :=
